@@ -86,6 +86,7 @@ decreases self.scopes@.len() - verif_j,"""),
         Rule("R2", "for $x in self . scopes . iter ( ) { $$body }", loop2, count=1, why="for over ScopeStack::iter() (innermost scope first) -> indexed while over the scope sequence"),
         Rule("R6", "scope . contains ( dependency )", "scope_contains ( scope , dependency )", why="Scope::contains: set lookup (abstract)"),
         Rule("R1", "maybe_result . cloned ( )", "opt_cloned ( maybe_result )", why="Option<&Ident>::cloned"),
+        Rule("R1", "scope_contains ( scope , dependency ) . cloned ( )", "opt_cloned ( scope_contains ( scope , dependency ) )", why="Option<&Ident>::cloned"),
     ], log, "has_name_been_mapped_in_function")
     check_closed(bl2, "has_name_been_mapped_in_function")
     for t, w in ((b, "scopes_since_loop"), (b_loop, "is_loop"), (b_fn, "is_function")):
